@@ -162,6 +162,9 @@ def judgeC03 (op : POp) (out : String) : Expect :=
   match op with
   | .crc d => .exact (toString (specCrcNat d))
   | .newreq .rtu _ _ =>
+    if out.startsWith "ENCODING-NOT-STABLE" || out.startsWith "FRAME-REWRITTEN" then
+      .pred false "a later encoding of the same request (after a relative was encoded, or after the caller wrote into the frame it was handed) is another frame: it does not end with the CRC of the request's bytes"
+    else
     if out.startsWith "ok " then
       match (fieldOf out "bytes").bind unhex with
       | some b => .pred (endsWithSpecCrc b) "RTU frame must end with the CRC of the preceding bytes, low byte first"
